@@ -3,6 +3,7 @@
 import argparse
 import asyncio
 import itertools
+import re
 import os
 
 from ..runner import Acc, h8, scratch_dir
@@ -216,6 +217,40 @@ def site_relevant(w, labs, ds, acc):
         compare(acc, "relevant_paths_under", d, labs, res[d])
 
 
+def site_relevant_glob(w, labs, ds, acc):
+    """The other half of relevant_paths_under: paths that are recorded only as matches of glob
+    patterns. Every label is a match of a pattern with a literal leading directory (`x/*` for
+    x/y) or of `*`; no label has a file node."""
+    from stepup.core.nglob import NamedGlob
+
+    groups = {}
+    for lab in labs:
+        if lab == "plan.py":
+            continue
+        base = lab.rsplit("/", 1)[0] + "/*" if "/" in lab else "*"
+        groups.setdefault(base, []).append(lab)
+
+    def run():
+        plan = w.plan()
+        recorded = set()
+        for pattern, members in sorted(groups.items()):
+            try:
+                ng = NamedGlob(pattern)
+            except (ValueError, re.error):
+                continue
+            ng.extend(members)
+            if not ng.files():
+                continue
+            w.wf.register_nglob(plan, ng)
+            recorded.update(str(x) for x in ng.files())
+        return recorded, {d: set(w.wf.relevant_paths_under(d)) for d in ds}
+
+    recorded, res = w.tx(run)
+    acc.count("glob_matches_recorded", len(recorded))
+    for d in ds:
+        compare(acc, "relevant_paths_under(glob matches)", d, sorted(recorded), res[d])
+
+
 def site_output_under(w, labs, ds, acc):
     from stepup.core.enums import Need
 
@@ -372,7 +407,7 @@ def compare(acc, site, d, labs, got):
         acc.sample({"site": site, "directory": d, "selected": sorted(got)[:6]})
 
 
-SITES = ["adopt", "handover", "child", "owner", "relevant", "output", "output1", "justified", "clean"]
+SITES = ["adopt", "handover", "child", "owner", "relevant", "relevant_glob", "output", "output1", "justified", "clean"]
 
 
 def jobs(tier, seed):
@@ -411,6 +446,9 @@ def run_job(spec):
             site_owner(w, labs, ds, acc)
         elif site == "relevant":
             site_relevant(w, labs, ds, acc)
+        elif site == "relevant_glob":
+            # a literal base of two characters next to directories of one: `ab/x` and `a/`
+            site_relevant_glob(w, sorted(set(labs) | {x for x in labels(4) if len(x) == 4 and x[2] == "/"}), ds, acc)
         elif site == "output":
             site_output_under(w, labs, ds, acc)
         elif site == "output1":
